@@ -115,3 +115,16 @@ func (m *VerifConsumerFetchResponder) For(reqBody versionedDecoder) encoderWithH
 	}
 	return &verifConsumerRaw{raw: raw}
 }
+
+// VerifConsumerMetaResponder is a MockResponse for "MetadataRequest": F builds the response (leaders may come and
+// go between calls) for the request's version and topics.
+type VerifConsumerMetaResponder struct {
+	F func(version int16, topics []string) *MetadataResponse
+}
+
+func (m *VerifConsumerMetaResponder) For(reqBody versionedDecoder) encoderWithHeader {
+	req := reqBody.(*MetadataRequest)
+	res := m.F(req.version(), req.Topics)
+	res.Version = req.version()
+	return res
+}
